@@ -178,7 +178,7 @@ class Evaluator(object):
         self.mutated = dict(self.mutated_locals(path, fn))
         for i, prm in enumerate(params):
             # a parameter the caller names keeps that name (it is an opaque variable anyway)
-            if prm.get('k') == 'Bind' and arg_terms is not None and i < len(arg_terms) and arg_terms[i] is not None and arg_terms[i][0] == 'var':
+            if prm.get('k') == 'Bind' and (arg_terms is None or (i < len(arg_terms) and arg_terms[i] is not None and arg_terms[i][0] == 'var')):
                 self.mutated.pop(prm['id'], None)
         try:
             return self._run_fn(fn, path, params, env, arg_terms, guards, chain)
